@@ -207,10 +207,12 @@ func (e *Executor) parseQuery(
 	doc, err := parser.ParseQueryWithTokenLimit(&ast.Source{Input: query}, e.parserTokenLimit)
 	if err != nil {
 		gqlErr, ok := err.(*gqlerror.Error)
-		if ok {
-			errcode.Set(gqlErr, errcode.ParseFailed)
-			return nil, gqlerror.List{gqlErr}
+		if !ok {
+			// e.g. the parser's token limit: not a *gqlerror.Error, but the document did not parse
+			gqlErr = gqlerror.Wrap(err)
 		}
+		errcode.Set(gqlErr, errcode.ParseFailed)
+		return nil, gqlerror.List{gqlErr}
 	}
 	stats.Parsing.End = graphql.Now()
 
